@@ -112,18 +112,18 @@ def gen_single_index(g, maxn):
                 g.add("ix", "c05_ix_single", "p_%s_i" % code, "packed", [n], part, "single", 0)
                 g.add("ix", "c05_ix_single", "p_%s_i" % code, "packed:array_shape", [n], part, "single", 1)
                 g.add("ix", "c05_ix_single", "p_%s_i" % code, "packed:int_shape", [n], part, "single", 2)
-                g.add("ix", "c05_ix_single", "p_%s_l" % code, "packed:longlong_parts", [n], part, "single", 0)
+                g.add("ix", "c05_ix_single", "p_%s_l" % code, "packed:ll", [n], part, "single", 0)
                 g.add("ix", "c05_ix_dyn", "d_%s" % code, "list", [n], part, "single", 0, dyn=True)
         for (s, e, st) in M.axis_grid("a3", n):
             part = [("R", s, e, st)]
-            g.add("ix", "c05_ix_single", "p_a3_i", "packed:index_array", [n], part, "single", 0)
-            g.add("ix", "c05_ix_single", "p_a3_l", "packed:index_array", [n], part, "single", 0)
-            g.add("ix", "c05_ix_dyn", "d_a3", "list:index_array", [n], part, "single", 0, dyn=True)
-            g.add("ix", "c05_ix_dyn", "d_a3_l", "list:index_array", [n], part, "single", 2, dyn=True)
+            g.add("ix", "c05_ix_single", "p_a3_i", "packed:array_part", [n], part, "single", 0)
+            g.add("ix", "c05_ix_single", "p_a3_l", "packed:array_part_ll", [n], part, "single", 0)
+            g.add("ix", "c05_ix_dyn", "d_a3", "list:array_part", [n], part, "single", 0, dyn=True)
+            g.add("ix", "c05_ix_dyn", "d_a3_l", "list:array_part_ll", [n], part, "single", 2, dyn=True)
         for (s, e, st) in M.axis_grid("a2", n):
             part = [("R", s, e, st)]
-            g.add("ix", "c05_ix_single", "p_a2_i", "packed:index_array", [n], part, "single", 0)
-            g.add("ix", "c05_ix_dyn", "d_a2", "list:index_array", [n], part, "single", 0, dyn=True)
+            g.add("ix", "c05_ix_single", "p_a2_i", "packed:array_part", [n], part, "single", 0)
+            g.add("ix", "c05_ix_dyn", "d_a2", "list:array_part", [n], part, "single", 0, dyn=True)
         for op in IX_EITHER:
             code = dyn_code(op)
             for (s, e, st) in M.axis_grid(code, n):
@@ -141,9 +141,9 @@ def gen_single_view(g, maxn, maxn_dyn):
         for code in ("a3", "a2"):
             for (s, e, st) in M.axis_grid(code, n):
                 part = [("R", s, e, st)]
-                g.add("v", "c05_v_single", "v_%s" % code, "view_packed:index_array", [n], part, "single")
+                g.add("v", "c05_v_single", "v_%s" % code, "view_packed:array_part", [n], part, "single")
                 if n <= maxn_dyn:
-                    g.add("v", "c05_v_dyn", "d_%s" % code, "view_list:index_array", [n], part, "single", dyn=True)
+                    g.add("v", "c05_v_dyn", "d_%s" % code, "view_list:array_part", [n], part, "single", dyn=True)
         for op in V_DYN:
             if op in ("d_a3", "d_a2") or n > maxn_dyn:
                 continue
@@ -197,11 +197,52 @@ def gen_multi_sampled(g, rng, per_ix, per_v, maxext=4):
             parts = [M.random_part(rng, c, n if n is not None else 1) for c, n in zip(codes, ext)]
             mode = "mutable" if fam == "view_mutable" else "multi"
             kind = 0
-            if level == "ix" and "E" not in codes and rng.random() < 0.3:
+            if level == "ix" and "E" not in codes and any(c != "I" for c in codes) and rng.random() < 0.3:
                 kind = rng.choice([1, 2])
             elif level == "ix" and rng.random() < 0.15:
                 kind = 2
             g.add(level, bin_, op, fam, shape, parts, mode, kind, codes=codes)
+
+CANON_SHAPE = [3, 2, 4, 3, 2]
+
+
+def canon_part(code, n, variant):
+    """a part from the argument classes that are correct on the unchanged tree (in-range, forward, non-empty)"""
+    if code == "I":
+        return ("I", (0, -1, n - 1)[variant % 3])
+    if code == "E":
+        return ("E",)
+    gs, ge, gst = M.given(code)
+    return ("R", (variant % 2) if gs else None, n if ge else None, (1 + variant % 2) if gst else None)
+
+
+def gen_multi_canonical(g):
+    """every type pattern x every feasible source dimension with fixed healthy values: the structural part of the
+    multi-axis space (which part kinds in which position, what the ellipsis stands for) is covered under every seed"""
+    for (level, bin_, op, fam, codes, dyn) in multi_ops():
+        k = sum(1 for c in codes if c != "E")
+        dims = range(max(k, 1), (max(k, 3) if k < 3 else k + 1) + 1) if "E" in codes else [k]
+        for dim in dims:
+            for variant in range(3):
+                shape = CANON_SHAPE[variant % 2:][:dim]
+                _, ext = M.assign_extents(None, codes, dim=dim, shape=shape)
+                parts = [canon_part(c, n, variant) for c, n in zip(codes, ext)]
+                g.add(level, bin_, op, fam, shape, parts, "mutable" if fam == "view_mutable" else "multi", 0, codes=codes)
+    # run-time either lists: every structure over {integer, range, ellipsis} of length 1..3(+ellipsis)
+    todo = [("ix", "c05_ix_either", op, "either") for op in IX_EITHER] + [("v", "c05_v_dyn", op, "view_either") for op in V_DYN if op[0] == "e"]
+    for (level, bin_, op, fam) in todo:
+        code = dyn_code(op)
+        for k in (1, 2, 3):
+            for kinds in itertools.product(["I", code], repeat=k):
+                for epos in [None] + list(range(k + 1)):
+                    codes = list(kinds)
+                    if epos is not None:
+                        codes.insert(epos, "E")
+                    for dim in ([k] if epos is None else range(k, 4)):
+                        shape = CANON_SHAPE[:dim]
+                        _, ext = M.assign_extents(None, codes, dim=dim, shape=shape)
+                        parts = [canon_part(c, n, k + (epos or 0)) for c, n in zip(codes, ext)]
+                        g.add(level, bin_, op, fam, shape, parts, "multi", 0, dyn=True, codes=codes)
 
 
 def gen_dyn_multi_sampled(g, rng, per_ix, per_v, maxext=4):
@@ -283,7 +324,7 @@ def gen_huge(g, rng, nsample):
 
     def fits(v):
         return v is None or -imax - 1 <= v <= imax
-    for sfx, fam, ns in (("i", "packed", HUGE_N), ("l", "packed:longlong_parts", HUGE_N + HUGE_N_LL)):
+    for sfx, fam, ns in (("i", "packed", HUGE_N), ("l", "packed:ll", HUGE_N + HUGE_N_LL)):
         for n in ns:
             for code in M.RANGE_CODES:
                 gs, ge, gst = M.given(code)
@@ -295,6 +336,9 @@ def gen_huge(g, rng, nsample):
                             # INT_MIN as a bound (negating it is undefined behaviour in int arithmetic): keep only a few cases
                             if sfx == "i" and -imax - 1 in (s, e) and (gs and ge):
                                 continue
+                            # extent 2^31 does not fit the int-typed bounds' arithmetic: a few cases are enough
+                            if sfx == "i" and n > imax and ((gs and s not in (0, -1)) or (ge and e not in (1, -1, n // 2))):
+                                continue
                             # thin the full 3-component grid deterministically
                             if gs and ge and gst and ((s % 7) * 3 + (e % 5) + st) % 3:
                                 continue
@@ -305,7 +349,7 @@ def gen_huge(g, rng, nsample):
                 for st in HUGE_STEPS[:6]:
                     if (s + e + st) % 4:
                         continue
-                    emit("d_a3_l", "list:index_array", n, s, e, st, dyn=True)
+                    emit("d_a3_l", "list:array_part_ll", n, s, e, st, dyn=True)
                     if fits(s) and fits(e):
                         emit("d_iii", "list", n, s, e, st, dyn=True)
     # seeded samples on top of the deterministic grid
@@ -320,7 +364,7 @@ def gen_huge(g, rng, nsample):
         e = val() if ge else None
         st = rng.choice(HUGE_STEPS + [rng.randint(2, 1000), -rng.randint(2, 1000)]) if gst else None
         sfx = "i" if (n <= imax and fits(s) and fits(e) and rng.random() < 0.5) else "l"
-        emit("p_%s_%s" % (code, sfx), "packed" if sfx == "i" else "packed:longlong_parts", n, s, e, st)
+        emit("p_%s_%s" % (code, sfx), "packed" if sfx == "i" else "packed:ll", n, s, e, st)
 
 
 # ---- evaluation ---------------------------------------------------------------------------------
@@ -460,6 +504,38 @@ def part_extents(c):
     return out
 
 
+PROBE_OPS = {"vs_nn": "nn", "vs_in": "in", "vs_ni": "ni", "vs_nni": "nni", "vs_ini": "ini", "vs_nii": "nii"}
+PROBE_TEXT = """// C05 compile probe (generated): view::slice(a, one_range) where the range has None components
+#include "c05_view.hpp"
+%s
+VH_MAIN()
+""" % "\n".join("VS(%s, %s)" % (op, {v: k for k, v in M.ALIAS.items()}[code]) for op, code in PROBE_OPS.items())
+
+
+def probe_variadic(ctx, g, maxn):
+    """view::slice(a, tuple{None, ...}) does not compile when the tuple of parts is copy-deduced (CTAD): the compilation
+    outcome itself is the observation.  Returns the binary or None."""
+    t = B.Target("c05_probe_variadic.cpp", "asan", text=PROBE_TEXT, name="c05_probe_variadic")
+    res = B.build([t], quiet=True)[0]
+    if res.error:
+        err = res.error
+        if "slice.hpp" in err and "error" in err:
+            first = [ln for ln in err.splitlines() if "error" in ln][:2]
+            ctx.violation("variadic:single_range",
+                          "view::slice(a, tuple{None,None}) (one range part with None components) does not compile: %s" % " | ".join(first)[:400],
+                          dict(source=PROBE_TEXT, compiler_output=err[-3000:], symptom="compile"))
+            ctx.set("variadic_none_probe", "does not compile")
+        else:
+            ctx.inconc("compile probe for view::slice failed for an unrelated reason: %s" % err[-400:])
+        return None
+    ctx.set("variadic_none_probe", "compiles")
+    for n in range(1, maxn + 1):
+        for op, code in PROBE_OPS.items():
+            for (s_, e_, st_) in M.axis_grid(code, n, margin=1, steps=[-2, -1, 1, 2]):
+                g.add("v", "c05_probe_variadic", op, "view_variadic", [n], [("R", s_, e_, st_)], "variadic1")
+    return res.binary
+
+
 def run(ctx):
     quick = ctx.tier == "quick"
     rng = ctx.rng
@@ -468,6 +544,7 @@ def run(ctx):
     maxn = 6
     gen_single_index(g, maxn)
     gen_single_view(g, maxn, 4 if quick else maxn)
+    gen_multi_canonical(g)
     if quick:
         gen_multi_sampled(g, rng, per_ix=60, per_v=40)
         gen_dyn_multi_sampled(g, rng, per_ix=40, per_v=60)
@@ -477,6 +554,9 @@ def run(ctx):
         gen_multi_sampled(g, rng, per_ix=1500, per_v=500, maxext=5)
         gen_dyn_multi_sampled(g, rng, per_ix=800, per_v=800, maxext=5)
         gen_huge(g, rng, 20000)
+    pb = probe_variadic(ctx, g, maxn)
+    if pb:
+        bins[("c05_probe_variadic", "asan")] = pb
 
     # ---- execute, one run per binary --------------------------------------------------------
     by_bin = {}
@@ -497,122 +577,149 @@ def run(ctx):
     ctx.set("crashes_contained", ncrash)
 
     # ---- judge --------------------------------------------------------------------------------
-    REF = {}          # ref_key -> (ok, signature)
+    REF = {}          # ("R", n, s, e, st) | ("I", n, i) -> ok   (packed reference encoding, index level)
+    SINGLE = {}       # (level, op, ref_key) -> ok        (every single-axis case of every encoding)
     fail_classes = set()
+    fam_fail_classes = {}
     stats = {}
     attributed = {"axis_class": 0, "own_key": 0}
     missing = 0
-    compared_pairs = 0
+    compared = 0
 
     def stat(c, ok):
         k = "%s/%s/%s" % (c.level, c.family, c.mode)
-        s = stats.setdefault(k, [0, 0])
-        s[0] += 1
+        s_ = stats.setdefault(k, [0, 0])
+        s_[0] += 1
         if not ok:
-            s[1] += 1
+            s_[1] += 1
 
     def judge(c):
-        """-> (ok, symptom, signature, text) or None when no record exists"""
+        """-> (ok, symptom, text) or None when no record exists"""
         if c.cid in crashed:
-            cr = crashed[c.cid]
-            return False, "crash", None, "process died: %s" % cr.kind()
+            return False, "crash", "process died: %s" % crashed[c.cid].kind()
         if c.cid not in results:
             return None
         toks, hooks = split_hooks(results[c.cid])
         hv = hacc.add(hooks)
         try:
             if toks and toks[0] in ("EXC", "ERR"):
-                return False, "crash", None, "harness caught %s" % " ".join(toks[:3])
+                return False, "crash", "harness caught %s" % " ".join(toks[:3])[:160]
             if c.level == "ix":
-                ok, sym, sg, text = eval_index(c, toks)
+                ok, sym, _, text = eval_index(c, toks)
             elif c.mode == "mutable":
                 ok, sym, text = eval_mutable(c, toks)
-                sg = None
             else:
                 ok, sym, text = eval_view(c, toks)
-                sg = None
         except (ValueError, IndexError) as e:
-            return False, "malformed", None, "unparsable record %s: %s" % (" ".join(toks[:30]), e)
+            return False, "malformed", "unparsable record %s: %s" % (" ".join(toks[:30]), e)
         if ok and hv:
             s_, v_, f0, f1 = hv[0]
-            return False, "hook", sg, "bounds hook %s: index %d outside extent %d" % (SITE_NAMES.get(s_, s_), f0, f1)
-        return ok, sym, sg, text
+            return False, "hook", "bounds hook %s: index %d outside extent %d" % (SITE_NAMES.get(s_, s_), f0, f1)
+        return ok, sym, text
 
-    def axis_key(n, part):
-        return "axis:" + M.axis_class(n, part[1], part[2], part[3])
+    def lvl(c):
+        return "index" if c.level == "ix" else "view"
 
     # pass 1: the reference encoding (packed, int parts, list<size_t> shape), single axis
     rest = []
     for c in g.cases:
-        if c.level == "ix" and c.mode == "single" and c.family == "packed" and c.kind == 0:
-            r = judge(c)
-            if r is None:
-                missing += 1
-                continue
-            ctx.ev()
-            ok, sym, sg, text = r
-            stat(c, ok)
-            n = c.shape[0]
-            p = c.parts[0]
-            REF[ref_key_of(p, n)] = (ok, sg)
-            if p[0] == "R":
-                cl = M.axis_class(n, p[1], p[2], p[3])
-                if len(M.py_axis(n, p[1], p[2], p[3])) != 1 or "lo" in cl or "hi" in cl:
-                    ctx.seen(("ix", "packed", cl, n))
-                if not ok:
-                    fail_classes.add(cl)
-                    ctx.violation("axis:" + cl, "index level, a[%s] on extent %d: %s (symptom %s)" % (np_text(c.parts), n, text, sym),
-                                  dict(case=c.brief(), line=c.line, symptom=sym))
-            else:
-                ctx.seen(("ix", "packed", "int", n, p[1]))
-                if not ok:
-                    ctx.violation("int:%s:%s" % ("neg" if p[1] < 0 else "pos", sym),
-                                  "index level, a[%d] on extent %d: %s" % (p[1], n, text), dict(case=c.brief(), line=c.line))
-        else:
+        if not (c.level == "ix" and c.mode == "single" and c.family == "packed" and c.kind == 0):
             rest.append(c)
-
-    # pass 2: everything else; failures explained by a failing reference axis case are attributed to its class
-    for c in rest:
+            continue
         r = judge(c)
         if r is None:
             missing += 1
             continue
         ctx.ev()
-        ok, sym, sg, text = r
+        ok, sym, text = r
         stat(c, ok)
-        exts = part_extents(c)
-        det = dict(case=c.brief(), line=c.line, symptom=sym)
-        if c.mode in ("single", "variadic1") or (c.mode == "mutable" and len(c.parts) == 1):
-            n = c.shape[0]
-            p = c.parts[0]
-            rk = ref_key_of(p, n)
-            ref = REF.get(rk)
-            if p[0] == "R":
-                cl = M.axis_class(n, p[1], p[2], p[3])
-                ctx.seen((c.level, c.family, cl))
-            if c.mode == "variadic1":
-                # view::slice(a, one_range): must behave like apply_slice(a, tuple{one_range})
-                if not ok:
-                    ctx.violation("variadic:single_range:%s" % sym,
-                                  "view::slice(a, range) with one range part, a[%s] on extent %d: %s" % (np_text(c.parts), n, text), det)
-                continue
-            if ref is not None and sg is not None:
-                compared_pairs += 1
-            if ok:
-                continue
-            if ref is not None and not ref[0] and (sg is None or sg == ref[1]):
-                attributed["axis_class"] += 1
-                continue   # same defect as the reference case (already reported under axis:<class>)
-            attributed["own_key"] += 1
-            if p[0] == "R":
-                ctx.violation("diverge:%s:%s:%s" % (c.family, M.axis_class(n, p[1], p[2], p[3]), sym),
-                              "%s level, encoding %s (%s), a[%s] on extent %d: %s; the packed reference encoding %s" % (
-                                  "index" if c.level == "ix" else "view", c.family, c.op, np_text(c.parts), n, text,
-                                  "is correct here" if ref and ref[0] else "is also wrong but differently"), det)
-            else:
-                ctx.violation("int:%s:%s:%s" % (c.family, "neg" if p[1] < 0 else "pos", sym),
-                              "%s, a[%d] on extent %d: %s" % (c.op, p[1], n, text), det)
+        n = c.shape[0]
+        p = c.parts[0]
+        REF[ref_key_of(p, n)] = ok
+        if p[0] == "R":
+            cl = M.axis_class(n, p[1], p[2], p[3])
+            if len(range(*slice(p[1], p[2], p[3]).indices(n))) != 1 or "lo" in cl or "hi" in cl:
+                ctx.seen(("ix", "packed", cl, n))
+            if not ok:
+                fail_classes.add(cl)
+                ctx.violation("axis:" + cl, "index level, a[%s] on extent %d: %s (symptom: %s)" % (np_text(c.parts), n, text, sym),
+                              dict(case=c.brief(), line=c.line, symptom=sym))
+        else:
+            ctx.seen(("ix", "packed", "int", n, p[1]))
+            if not ok:
+                ctx.violation("int:packed:%s" % ("neg" if p[1] < 0 else "pos"),
+                              "index level, a[%d] on extent %d: %s (symptom: %s)" % (p[1], n, text, sym), dict(case=c.brief(), line=c.line, symptom=sym))
+
+    # pass 2: the other single-axis cases.  A failure on a case the reference also fails is the same defect
+    # (reported under axis:<class>); a failure where the reference is right is a divergence of that encoding.
+    later = []
+    for c in rest:
+        single = c.mode in ("single", "variadic1") or (c.mode == "mutable" and len(c.parts) == 1) or (c.mode == "variadic" and len(c.parts) == 1)
+        if not single:
+            later.append(c)
             continue
+        r = judge(c)
+        if r is None:
+            missing += 1
+            continue
+        ctx.ev()
+        ok, sym, text = r
+        stat(c, ok)
+        n = c.shape[0]
+        p = c.parts[0]
+        rk = ref_key_of(p, n)
+        ref = REF.get(rk)
+        det = dict(case=c.brief(), line=c.line, symptom=sym)
+        if c.mode == "variadic1":
+            # view::slice(a, one_range) must behave like apply_slice(a, tuple{one_range})
+            ctx.seen((c.level, c.family, c.op, n))
+            if not ok and not (ref is False and c.bin == "c05_probe_variadic" and sym != "crash"):
+                if ref is False and sym not in ("crash",):
+                    attributed["axis_class"] += 1
+                    continue
+                ctx.violation("variadic:single_range",
+                              "view::slice(a, range) with a single range part, a[%s] on extent %d: %s (symptom: %s)" % (np_text(c.parts), n, text, sym), det)
+            continue
+        SINGLE[(c.level, c.op, rk)] = ok
+        if ref is not None:
+            compared += 1
+        if p[0] == "R":
+            cl = M.axis_class(n, p[1], p[2], p[3])
+            ctx.seen((c.level, c.family, cl))
+            if not ok:
+                fam_fail_classes.setdefault(c.family, set()).add(cl)
+        if ok:
+            continue
+        if ref is False:
+            attributed["axis_class"] += 1
+            continue
+        attributed["own_key"] += 1
+        if p[0] == "R":
+            ctx.violation("diverge:%s:%s" % (c.family, cl),
+                          "%s level, encoding %s (%s), a[%s] on extent %d: %s (symptom: %s); the packed int reference encoding is correct here" % (
+                              lvl(c), c.family, c.op, np_text(c.parts), n, text, sym), det)
+        else:
+            ctx.violation("int:%s:%s" % (c.family, "neg" if p[1] < 0 else "pos"),
+                          "%s level, %s, a[%d] on extent %d: %s (symptom: %s)" % (lvl(c), c.op, p[1], n, text, sym), det)
+
+    # pass 3: huge extents and multi-axis cases; failures explained by a failing single-axis case are attributed to it
+    def single_op_for(c, part):
+        """the op whose single-axis grid exercises the same code for this part"""
+        if c.dyn:
+            return c.op
+        if c.level == "v":
+            return "v_I" if part[0] == "I" else "v_" + M.sig_to_code(part)
+        return None
+
+    for c in later:
+        r = judge(c)
+        if r is None:
+            missing += 1
+            continue
+        ctx.ev()
+        ok, sym, text = r
+        stat(c, ok)
+        det = dict(case=c.brief(), line=c.line, symptom=sym)
         if c.mode == "huge":
             n = c.shape[0]
             p = c.parts[0]
@@ -620,45 +727,45 @@ def run(ctx):
             r_ = range(*slice(p[1], p[2], p[3]).indices(n))
             span = abs(r_.stop - r_.start) if len(r_) else 0
             rcl = "range_ge_2p24" if span >= 2**24 else "range_lt_2p24"
-            ctx.seen(("huge", c.family, M.cls_step(p[3]), rcl, cl))
+            ecl = "extent_ge_2p31" if n >= 2**31 else "extent_lt_2p31"
+            ctx.seen(("huge", c.family, ecl, rcl, cl))
             if ok:
                 continue
-            if cl in fail_classes:
+            if cl in fail_classes or cl in fam_fail_classes.get(c.family, ()):
                 attributed["axis_class"] += 1
                 continue
             attributed["own_key"] += 1
-            ctx.violation("huge:%s:step_%s:%s:%s" % (c.family, M.cls_step(p[3]), rcl, sym),
-                          "index level, extent %d, a[%s]: %s" % (n, np_text(c.parts), text), det)
+            ctx.violation("huge:%s:%s:%s" % (c.family, ecl, rcl),
+                          "index level, extent %d, a[%s]: %s (symptom: %s)" % (n, np_text(c.parts), text, sym), det)
             continue
-        # multi-axis (also variadic / mutable with several parts)
+        ecls = M.ellipsis_class(c.parts, len(c.shape))
         ctx.seen((c.level, c.family, c.op if not c.dyn else M.structure(c.parts), tuple(c.shape)))
         if ok:
             continue
-        tainted = None
-        for p, n in zip(c.parts, exts):
+        tainted = False
+        for p, n in zip(c.parts, part_extents(c)):
             if p[0] == "E":
                 continue
-            ref = REF.get(ref_key_of(p, n))
-            if ref is not None and not ref[0]:
-                tainted = (p, n)
+            rk = ref_key_of(p, n)
+            if REF.get(rk) is False or SINGLE.get((c.level, single_op_for(c, p), rk)) is False:
+                tainted = True
                 break
-        if tainted is not None:
+        if tainted:
             attributed["axis_class"] += 1
             continue
         attributed["own_key"] += 1
-        ctx.violation("multi:%s:%s:%s" % (c.family, M.structure(c.parts), sym),
-                      "%s level, %s, a[%s] on shape %s: %s (every part is correct on its own axis)" % (
-                          "index" if c.level == "ix" else "view", c.op, np_text(c.parts), c.shape, text), det)
+        ctx.violation("multi:%s:%s" % (c.family, ecls),
+                      "%s level, %s, a[%s] on shape %s: %s (symptom: %s; every part is correct on its own axis)" % (
+                          lvl(c), c.op, np_text(c.parts), c.shape, text, sym), det)
 
     if missing:
         ctx.inconc("%d cases produced no record" % missing)
-    for (s, v) in sorted(hacc.viol.items()):
-        pass
     nfail = sum(v[1] for v in stats.values())
     ctx.rule = ("exhaustive single axis: extents 1..%d x start/stop in [-(n+2), n+2] or omitted x step in +-1..3 or omitted for the 12 packed "
                 "None-patterns x {int, long long parts} x 3 shape kinds, index-array parts, 15 run-time list encodings and 12 either-list encodings "
-                "(index level) and 12 packed + 12 run-time encodings (view level, 5 routes each); %s multi-axis combinations over %d type patterns; "
-                "deterministic huge-extent grid (2^24-1..2^40)%s. distinct = (level, encoding family, argument class | pattern, shape) tuples"
+                "(index level) and 14 packed + 10 run-time encodings (view level, 5 routes each); every multi-axis type pattern x feasible dimension with "
+                "fixed values + %s multi-axis combinations over %d type patterns; deterministic huge-extent grid (2^24-1..2^40)%s. "
+                "distinct = (level, encoding family, argument class | pattern, shape) tuples"
                 % (maxn, "sampled" if quick else "exhaustive 2-axis (extents 1..3) + sampled 2..4-part", len(multi_ops()),
                    "" if quick else " + 20000 sampled huge cases"))
     ctx.exhaustive = False
@@ -667,8 +774,10 @@ def run(ctx):
     ctx.set("failing_axis_classes", len(fail_classes))
     ctx.set("axis_classes_total", len({M.axis_class(k[1], k[2], k[3], k[4]) for k in REF if k[0] == "R"}))
     ctx.set("failures_attributed", attributed)
-    ctx.set("encoding_pairs_compared_with_reference", compared_pairs)
+    ctx.set("encoding_cases_compared_with_reference", compared)
     ctx.set("hook_events", hacc.summary())
+    ctx.set("not_generated", ["index with fewer parts than axes and no ellipsis (a[1:3] on a 2-d array leaves the trailing extents 0: unchecked precondition)",
+                              "integer part outside [-n, n)", "step 0"])
     if hacc.events.get(2, 0) == 0:
         ctx.inconc("view bounds hook never fired")
     for c in g.cases[:1] + [c for c in g.cases if c.mode == "multi"][:3] + [c for c in g.cases if c.mode == "huge"][:2]:
